@@ -706,6 +706,7 @@ func runC14(c *kc.Ctx) {
 		}
 	}
 	c14Deniable(t, envs)
+	c14Rushing(t, envs)
 	t.settle()
 }
 
